@@ -376,6 +376,7 @@ pub fn unit(seed: u64, max_pairs: usize, ctx: &mut Ctx, ctl: &mut UnitCtl) {
         ctx.stats.evaluations += 1;
         // identical images behave identically, but durability depends on n_full: judge all
         seen_shp.insert(a.hash);
+        ctx.stats.fault(if a.cut > 0 { "crash:shp-mid-write" } else { "crash:shp-op-boundary" }, 1);
         judge(ctx, &p, &a.data, a.n_full, &[], rbuf, true, false);
         ctl.after_case(ctx, || mk(a, &empty));
     }
@@ -402,6 +403,7 @@ pub fn unit(seed: u64, max_pairs: usize, ctx: &mut Ctx, ctl: &mut UnitCtl) {
             continue;
         }
         ctx.stats.reach(&format!("shx-cut:{}", b.region));
+        ctx.stats.fault(if a.cut > 0 || b.cut > 0 { "crash:pair-mid-write" } else { "crash:pair-op-boundaries" }, 1);
         judge(ctx, &p, &a.data, a.n_full, &b.data, rbuf, false, true);
         ctl.after_case(ctx, || mk(a, b));
     }
